@@ -1,35 +1,37 @@
 (* Statement pins for area `metadata`: every property theorem checked against its full
    statement written out. *)
-From FlacMeta Require Import Bytes Blocks BlockList Cue Accessors Sniff Blocks_proofs BlockList_proofs CueRender Props_C11 Props_C12 Props_C20.
+From FlacMeta Require Import Bytes Blocks BlockList Cue Accessors Sniff Blocks_proofs Blocks_level BlockList_proofs CueRender Props_C11 Props_C12 Props_C20.
 Open Scope N_scope.
 
-Check (C11_block_write_read : forall (utf8_valid : list N -> bool) last b bs rest,
-  covered b -> ty_block b -> canon_block b ->
-  write_block last b = Ok bs -> read_block utf8_valid (bs ++ rest) = Ok (last, b, rest)).
-Check (C11_block_size : forall last b bs, covered b -> ty_block b -> write_block last b = Ok bs ->
+Check (C11_block_write_read : forall (u : list N -> bool), (forall s, Forall (fun b => b < 128) s -> u s = true) ->
+  forall last b bs rest, ty_block u b -> canon_block b ->
+  write_block last b = Ok bs -> read_block u (bs ++ rest) = Ok (last, b, rest)).
+Check (C11_block_size : forall (u : list N -> bool) last b bs, ty_block u b -> write_block last b = Ok bs ->
   exists body, bs = write_header (mkHeader last (block_type b) (lenN body)) ++ body /\
                write_body b = Ok body /\ block_bytes b = Ok (Some (lenN body))).
-Check (C11_block_read_write_read : forall (utf8_valid : list N -> bool) s last b rest,
-  Forall byte s -> read_block utf8_valid s = Ok (last, b, rest) -> covered b ->
-  ty_block b /\ canon_block b /\ Forall byte rest /\ lenN rest + 4 <= lenN s /\
+Check (C11_block_read_write_read : forall (u : list N -> bool) s last b rest,
+  Forall byte s -> read_block u s = Ok (last, b, rest) ->
+  ty_block u b /\ canon_block b /\ Forall byte rest /\ lenN rest + 4 <= lenN s /\
   exists bs', write_block last b = Ok bs' /\ lenN bs' + lenN rest = lenN s).
-Check (C11_write_blocks_read_blocks : forall (utf8_valid : list N -> bool) l bs tail,
-  Forall covered l -> Forall ty_block l -> Forall canon_block l ->
-  write_blocks l = Ok bs -> read_blocks utf8_valid (bs ++ tail) = Ok l).
-Check (C11_read_blocks_write_blocks : forall (utf8_valid : list N -> bool) bs l,
-  Forall byte bs -> read_blocks utf8_valid bs = Ok l -> Forall covered l ->
-  Forall ty_block l /\ Forall canon_block l /\
-  exists bs', write_blocks l = Ok bs' /\ read_blocks utf8_valid bs' = Ok l).
+Check (C11_write_blocks_read_blocks : forall (u : list N -> bool), (forall s, Forall (fun b => b < 128) s -> u s = true) ->
+  forall l bs tail, Forall (ty_block u) l -> Forall canon_block l ->
+  write_blocks l = Ok bs -> read_blocks u (bs ++ tail) = Ok l).
+Check (C11_read_blocks_write_blocks : forall (u : list N -> bool), (forall s, Forall (fun b => b < 128) s -> u s = true) ->
+  forall bs l, Forall byte bs -> read_blocks u bs = Ok l ->
+  Forall (ty_block u) l /\ Forall canon_block l /\
+  exists bs', write_blocks l = Ok bs' /\ read_blocks u bs' = Ok l).
 Check (C11_rules_refused : forall l bs, write_blocks l = Ok bs -> rules_ok l).
-Check (C11_sizes_refused : forall l bs, Forall covered l -> Forall ty_block l -> write_blocks l = Ok bs ->
+Check (C11_sizes_refused : forall (u : list N -> bool) l bs, Forall (ty_block u) l -> write_blocks l = Ok bs ->
   Forall (fun b => exists body, write_body b = Ok body /\ lenN body <= BLOCKSIZE_MAX) l).
-Check (C11_write_never_panics : forall l, Forall covered l -> Forall ty_block l ->
-  is_panic (write_blocks l) = false).
-Check (C11_refuted : ~ (forall (utf8_valid : list N -> bool) b bs r, covered b -> ty_block b -> write_body b = Ok bs ->
+Check (C11_write_never_panics : forall (u : list N -> bool) l, Forall (ty_block u) l -> is_panic (write_blocks l) = false).
+Check (C11_refuted : ~ (forall (utf8_valid : list N -> bool) b bs r,
+    (forall s, Forall (fun b => b < 128) s -> utf8_valid s = true) ->
+    ty_block utf8_valid b -> write_body b = Ok bs ->
     read_body utf8_valid (block_type b) (lenN bs) (bs ++ r) = Ok (b, r))).
-Check (C11_outside_known : forall (utf8_valid : list N -> bool) b bs r,
-  covered b -> ty_block b -> ~ known_class b -> write_body b = Ok bs ->
-  read_body utf8_valid (block_type b) (lenN bs) (bs ++ r) = Ok (b, r)).
+Check (C11_outside_known : forall (u : list N -> bool) b bs r, (forall s, Forall (fun b => b < 128) s -> u s = true) ->
+  ty_block u b -> ~ known_class b -> write_body b = Ok bs ->
+  read_body u (block_type b) (lenN bs) (bs ++ r) = Ok (b, r)).
+Check (C11_utf8_std_ok : forall s, Forall (fun b => b < 128) s -> Utf8.utf8_valid_std s = true).
 
 Check (C12_read_metadata_total : forall (utf8_valid : list N -> bool) (p : profile) (bytes : list N) k,
   read_metadata utf8_valid p bytes <> Panic k).
@@ -44,7 +46,7 @@ Check (C12_cue_accessors_total : forall (p : profile) total text c ch bps k,
   cue_parse p total text = Ok c -> 1 <= ch -> 1 <= bps -> track_byte_ranges c ch bps <> Panic k).
 Check (C12_sniff_total : forall (p : profile) (bytes : list N) k, sniff p bytes <> Panic k).
 Check (C12_block_size_bounded : forall (utf8_valid : list N -> bool) s last b rest,
-  Forall byte s -> read_block utf8_valid s = Ok (last, b, rest) -> covered b ->
+  Forall byte s -> read_block utf8_valid s = Ok (last, b, rest) ->
   exists bs', write_block last b = Ok bs' /\ lenN bs' + lenN rest = lenN s).
 
 Check (C20_import : forall (p : profile) st c total text,
